@@ -112,7 +112,7 @@ inductive Field where
   -- Entity._save_created_ / _save_updated_ / _load_
   | attrs | update_columns | optimistic_columns | optimistic_ops
   -- Query._construct_sql_and_arguments / Query.delete / translator cache / result cache
-  | query_key | vartypes | fixed_param_values | offset | distinct | aggr_func | inner_join_syntax | sql_command
+  | query_key | vartypes | fixed_param_values | offset | distinct | aggr_func_name | aggr_func_distinct | sep | inner_join_syntax | sql_command
   | code_key | left_join | filters | sql_key | arguments_key
   -- module level
   | sql | paramstyle | source_text | codeobject_id
@@ -145,7 +145,8 @@ def deleteDeps : List Field := []
     translator determined by `query._key` + the pinned values + the (function) vartypes, then `ast2sql` (reads `options.INNER_JOIN_SYNTAX`);
     the select list of an entity query reads the prefetch context: `attrs_to_prefetch` when it is the query's own -/
 def constructedRowDeps : List Field :=
-  [.query_key, .vartypes, .fixed_param_values, .limit, .offset, .distinct, .aggr_func, .for_update, .nowait, .skip_locked, .inner_join_syntax]
+  [.query_key, .vartypes, .fixed_param_values, .limit, .offset, .distinct, .aggr_func_name, .aggr_func_distinct, .sep, .for_update, .nowait, .skip_locked,
+   .inner_join_syntax]
 def constructedTextDeps : List Field := constructedRowDeps ++ [.attrs_to_prefetch, .active_prefetch_context]
 def deleteSqlDeps : List Field := [.query_key, .sql_command]
 def resultDeps : List Field := [.sql_key, .arguments_key]
@@ -215,6 +216,75 @@ def trMemo (pins : List Int → List Int) (norm : Option Int → Option Int) : M
 
 /-- what a query built from the translator really uses: the translator with the values pinned from the query's OWN parameters -/
 def trSpec (pins : List Int → List Int) (norm : Option Int → Option Int) (i : TrIn) : Translator := trCompute pins norm i
+
+/-- the `aggr_func` component of `sql_key`.  `construct_sql_ast` reads `aggr_func_distinct` as a THREE-valued input: for COUNT over a
+    single-column projection `None` means DISTINCT (`True if aggr_func_distinct is None else aggr_func_distinct`), `False` means ALL -/
+structure AggrIn where
+  name : Nat
+  distinct : Option Bool
+  sep : Option Nat
+  deriving DecidableEq, Repr
+
+/-- the DISTINCT flag of the generated `COUNT(...)` -/
+def countDistinct (i : AggrIn) : Bool := match i.distinct with | none => true | some b => b
+
+/-- as coded: `(aggr_func_name, aggr_func_distinct, sep)` -/
+def aggrKey (i : AggrIn) : Nat × Option Bool × Option Nat := (i.name, i.distinct, i.sep)
+/-- a key that only keeps the truthiness: `(aggr_func_name, bool(aggr_func_distinct), sep)` -/
+def aggrKeyBool (i : AggrIn) : Nat × Bool × Option Nat := (i.name, i.distinct.getD false, i.sep)
+
+/-- caches keyed by `id(code object)` (`ast_cache`, `lambda_args_cache`, and through `code_key` the extractors / translator / SQL
+    caches).  `id()` is a key only while the object is alive: `pony.utils.get_codeobject_id` stores every code object it has
+    numbered in the module dict `codeobjects`, which keeps it alive for the life of the process (`pin`).  The heap: objects with
+    an address and a content; `drop` frees an object unless it is pinned; `alloc` places a new object at a free address
+    (possibly the address of a dead one); `use` decompiles the live object at an address through the cache. -/
+structure CodeObj where
+  addr : Nat
+  content : Nat
+  deriving DecidableEq, Repr
+
+inductive HOp where
+  | alloc (o : CodeObj)
+  | drop (addr : Nat)
+  | use (addr : Nat)
+  deriving DecidableEq, Repr
+
+structure Heap where
+  live : List CodeObj
+  pinned : List Nat
+  table : Table Nat Nat
+  deriving Repr
+
+def Heap.init : Heap := ⟨[], [], []⟩
+
+def liveAt (h : Heap) (a : Nat) : Option CodeObj := h.live.find? (fun o => o.addr == a)
+
+/-- `pin` = `get_codeobject_id` keeps the object in `codeobjects`; `warm = false`: the lookup never hits -/
+def hstep (pin warm : Bool) (h : Heap) : HOp → Heap × Option Nat
+  | .alloc o => match liveAt h o.addr with
+      | some _ => (h, none)                      -- the address is taken
+      | none => ({ h with live := o :: h.live }, none)
+  | .drop a => if a ∈ h.pinned then (h, none)    -- still referenced by `codeobjects`
+      else ({ h with live := h.live.filter (fun o => o.addr != a) }, none)
+  | .use a => match liveAt h a with
+      | none => (h, none)
+      | some o =>
+        let h1 := if pin then { h with pinned := a :: h.pinned } else h
+        match (if warm then tget a h1.table else none) with
+        | some v => (h1, some v)
+        | none => ({ h1 with table := tset a o.content h1.table }, some o.content)
+
+def hrun (pin warm : Bool) : Heap → List HOp → List (Option Nat)
+  | _, [] => []
+  | h, op :: rest => let r := hstep pin warm h op; r.2 :: hrun pin warm r.1 rest
+
+/-- a translator that bakes in the values of the parameters `pins key ++ hidden key` but RECORDS only `pins key` in
+    `fixed_param_values` (a bound pinned inside a nested generator recorded on the sub-translator instead of the root) -/
+def trMemoHidden (pins hidden : List Int → List Int) (norm : Option Int → Option Int) :
+    Memo TrIn (List Int) (Translator × List (Int × Option Int)) :=
+  { key := fun i => i.key, skey := fun i => i.key,
+    compute := fun i => (trCompute pins norm i, (hidden i.key).map (fun p => (p, norm (i.vars p)))),
+    accept := fun i v => trAccept i v.1, cacheable := fun i => i.cacheable, popOnReject := fun _ _ => true }
 
 /-- `create_extractors`: an input is the code key plus what the split into external expressions really depends on — how the
     called names are classified in the caller's scope (`PreTranslator.postCall`) and the outer names; the value records what it
